@@ -125,7 +125,7 @@ func ledgerStrata() []stratum {
 			c.Accounts = manyAccountsL(1100)
 			c.Assets = []string{"USD"}
 			c.Ladder = true
-			c.PLongSrc, c.PLongDst, c.PFunded, c.PRepeat = 70, 30, 97, 1
+			c.PLongSrc, c.PLongDst, c.PFunded, c.PRepeat, c.PNegBal = 70, 30, 90, 1, 50
 			c.Depth, c.Fanout, c.MinStmts, c.MaxStmts, c.PSave, c.PMetaStmt, c.PSendAll, c.PWorld, c.PVarAcct, c.PVarAmt = 1, 1100, 1, 2, 5, 0, 10, 2, 1, 5
 		}), 1},
 		{"concat", with(func(c *gen.LCfg) {
